@@ -32,7 +32,7 @@ static struct nv_step* nv_steps_iter_arrow(struct nv_steps_iter it)
 }
 
 /* callee contracts ------------------------------------------------------------------------------------------------ */
-_Bool tuner_evaluate(struct nv_spaces* spaces, struct nv_callback* callback, struct nv_igrids igrids, struct nv_logger* nv_unnamed, struct nv_steps* steps)
+_Bool tuner_evaluate(struct nv_spaces* spaces, struct nv_callback* callback, struct nv_igrids igrids, struct nv_logger* nv_unnamed3, struct nv_steps* steps)
 NV_CONTRACT_tuner_evaluate;
 
 /* local_search(min, max, src, radius) at the level of grid-point identities: at most 3^d candidates, pairwise distinct
@@ -97,8 +97,8 @@ __CPROVER_decreases((int64_t)nv_max_evals - steps.n)
 
 /* ---- surrogate_tuner_t::do_optimize: same evaluation protocol; the surrogate numerics (quadratic fit, L-BFGS) are opaque:
  * whatever they return, the next source point is some index vector, searched around with radius 1 */
-struct nv_opaque { int64_t n; };
-static struct nv_opaque nv_opaque_any(void) { struct nv_opaque o; o.n = nv_nondet_int64_t(); return o; }
+struct nv_c13_opaque { int64_t n; };
+static struct nv_c13_opaque nv_opaque_any(void) { struct nv_c13_opaque o; o.n = nv_nondet_int64_t(); return o; }
 static struct nv_igrid nv_igrid_any(void) { struct nv_igrid g; g.id = nv_nondet_int64_t(); return g; }
 static double* nv_scratch_double(int64_t i) { return &nv_scratch_f64; }
 static int64_t* nv_scratch_long(void) { return &nv_scratch_i64; }
